@@ -95,6 +95,14 @@ impl SigningError {
     }
 }
 
+#[cfg(enr_verif)]
+impl SigningError {
+    /// Verification hook: lets an out-of-crate `EnrKey` implementation report a signing failure.
+    pub fn verif_new(msg: &str) -> Self {
+        Self::new(msg)
+    }
+}
+
 impl fmt::Display for SigningError {
     fn fmt(&self, f: &mut fmt::Formatter) -> fmt::Result {
         write!(f, "Key signing error: {}", self.msg)
